@@ -356,4 +356,24 @@ example : Trace.fromType .fixed {} (toTraceTy exEmpty) = .ok [] ∧
    (C04_empty_root_loses_records .fixed {} exEmpty [Val.struct .nil, Val.struct .nil] rfl (by decide +kernel) (by decide +kernel)
       (by decide +kernel) (by decide +kernel) (by simp)).2.2⟩
 
+/-- the identity form and the Dictionary-free form on the tuple struct root (`plainOpt`: no Option over a nullable position;
+default options: no Dictionary column), against what `from_type` / `to_marrow` return -/
+def exTFields : List Field := match Trace.fromType .fixed {} (toTraceTy exTupleStruct) with | .ok fs => fs | .error _ => []
+def exTArrs : List Arr := match toMarrow {} exTFields (exTBatch.map (ser exTupleStruct)) with | .ok a => a | .error _ => []
+theorem exTTrace : Trace.fromType .fixed {} (toTraceTy exTupleStruct) = .ok exTFields := by decide +kernel
+theorem exTBuild : toMarrow {} exTFields (exTBatch.map (ser exTupleStruct)) = .ok exTArrs := by decide +kernel
+example : exTFields.length = 3 ∧ exTArrs.length = 3 := by decide +kernel
+
+example : readAll (toTarget exTupleStruct) exTFields exTArrs = .ok (exTBatch.map (dvalOf exTupleStruct)) :=
+  C04_roundtrip_identity_root .fixed {} {} exTupleStruct
+    (mappingPos {} 0 (.cons (.prim (.int .i32)) (.cons (.prim .str) (.cons (.prim .bool) .nil)))) exTBatch exTFields exTArrs rfl
+    (by decide +kernel) (by decide +kernel) (by decide +kernel) (by decide +kernel) (by decide +kernel) (by decide +kernel)
+    (by decide +kernel) exTTrace exTBuild
+
+example : readAll (toTarget exTupleStruct) exTFields exTArrs =
+    .ok (exTBatch.map fun v => dvalOf exTupleStruct (norm exTupleStruct v)) :=
+  C04_roundtrip_bulk_plain_root .fixed {} {} exTupleStruct
+    (mappingPos {} 0 (.cons (.prim (.int .i32)) (.cons (.prim .str) (.cons (.prim .bool) .nil)))) exTBatch exTFields exTArrs rfl rfl rfl
+    (by decide +kernel) (by decide +kernel) (by decide +kernel) (by decide +kernel) (by decide +kernel) exTTrace exTBuild
+
 end SaModel.Props.C04
